@@ -123,15 +123,18 @@ class ShardResult(dict):
     pass
 
 
+ENUM_THRESHOLD = 12  # realisations of one variable that mark a hashing site (DESIGN §2.7)
+
+
 def explore(harness, seed=0, per_path_timeout=30.0, budget_s=600.0, hard_extra=10.0,
-            max_paths=1_000_000):
+            max_paths=1_000_000, abort_on_enumeration=False):
     """Explore every path of `harness` and return a JSON-able result dict."""
     random.seed(seed)
     names = harness.variables()  # list of (name, "int"|"bool")
     root = RootNode()
     res = ShardResult(
         paths=0, skipped=0, decided_paths=0, inconclusive=[], candidates=[], samples=[],
-        digests={}, exhausted=False, budget_exhausted=False, hard_timeouts=0,
+        digests={}, exhausted=False, budget_exhausted=False, hard_timeouts=0, enumerating=[],
     )
     q0, s0 = SOLVER["queries"], SOLVER["seconds"]
     t_start = time.time()
@@ -210,6 +213,12 @@ def explore(harness, seed=0, per_path_timeout=30.0, budget_s=600.0, hard_extra=1
         if exhausted:
             res["exhausted"] = True
             break
+        if abort_on_enumeration and res["paths"] % 8 == 0:
+            st = root.stats()
+            hot = [str(k) for k, n in dict(st).items() if str(k).startswith("realize_") and n >= ENUM_THRESHOLD]
+            if hot:
+                res["enumerating"] = hot
+                break
     res["wall_s"] = round(time.time() - t_start, 2)
     res["queries"] = SOLVER["queries"] - q0
     res["solver_s"] = round(SOLVER["seconds"] - s0, 2)
